@@ -2,6 +2,7 @@ import EdpVerif.Lemmas.Send
 import EdpVerif.Lemmas.SendSched
 import EdpVerif.Lemmas.SendAll
 import EdpVerif.Lemmas.SendSchedF
+import EdpVerif.Generated.MiscC07book
 /-
 C07 — each send operation emits exactly one well-formed frame with the right content.
 Property theorems only; helper lemmas live in EdpVerif/Lemmas/Send.lean and SendSched.lean.
@@ -662,6 +663,70 @@ example : let prog : Nat → List TOp := fun t => if t < 2 then [⟨[[1], [2], [
     (runF prog StF.init [0, 0, 1, 0, 0, 1, 1, 1, 0, 0, 1, 1, 0, 1, 0]).closed = true ∧
     (runF prog StF.init [0, 0, 1, 0, 0, 1, 1, 1, 0, 0, 1, 1, 0, 1, 0]).lock = none ∧
     (runF prog StF.init [0, 0, 1, 0, 0, 1, 1, 1, 0, 0, 1, 1, 0, 1, 0]).acq = [(0, 0), (1, 0), (1, 1), (0, 1)] := by
+  decide
+
+end Edp.Props.C07
+
+namespace Edp.Props.C07
+open Edp Edp.Send
+
+/-! ### the node-level operations: bookkeeping and exits (node.rs) -/
+
+/-- every bookkeeping step, draw, lookup, lock, `Connection` call, branch and exit of the node-level send-side operations,
+read off node.rs in source order, is this table: `send` only chooses between the local and the remote function,
+`send_to_name` resolves the name on this node and goes on to `send`; in the five remote functions whatever is recorded on
+the handles of local processes (`add_link`, `remove_link`) is recorded BEFORE the branch on the target's node and hence
+before the write, the error of the `Connection` call is passed on with `?` (nothing recorded is taken back when the write
+fails: a retried operation finds the pair already recorded), and there is no `return` anywhere: the only `Ok` of a
+remote target is the one behind the call.  An operation that answers `Ok` from its bookkeeping (a link that is already
+in the set) without reaching the call changes this table. -/
+theorem C07_node_bookkeeping_is_the_sources :
+    Gen.C07_NODE_BOOK =
+      [("send", ["local?", "delegate:send_local", "else", "delegate:send_remote"]),
+       ("send_to_name", ["delegate:whereis", "err:NameNotRegistered", "delegate:send"]),
+       ("send_remote", ["lookup", "draw:pid", "lock", "call:send_message", "fail:propagate", "ok", "else", "not_connected"]),
+       ("link", ["reg:get", "book:add_link", "noproc", "local?", "reg:get", "book:add_link", "noproc", "ok", "else",
+         "lookup", "lock", "call:link", "fail:propagate", "ok", "else", "not_connected"]),
+       ("unlink", ["reg:get", "book:remove_link", "local?", "reg:get", "book:remove_link", "ok", "else",
+         "lookup", "draw:unlink_id+1", "lock", "call:unlink", "fail:propagate", "ok", "else", "not_connected"]),
+       ("monitor", ["draw:ref", "local?", "reg:get", "book:add_monitor", "reg:get", "notify", "ok", "else",
+         "lookup", "lock", "call:monitor", "fail:propagate", "ok", "else", "not_connected"]),
+       ("demonitor", ["local?", "reg:get", "book:remove_monitor", "ok", "else",
+         "lookup", "lock", "call:demonitor", "fail:propagate", "ok", "else", "not_connected"])] := by
+  decide
+
+/-- for every node-level operation: what precedes the remote branch (`common`: bookkeeping on the caller's own handle and
+draws, no exit of any kind), then either nothing (`send_remote` is the remote branch) or the branch on the target's node
+whose local arm ends in its own `Ok`; the remote arm is the table lookup, draws, ONE lock, ONE `Connection` call — the
+one the model's `nodeOp` performs —, its error passed on, `Ok`, and otherwise `NodeNotConnected`.  So towards a remote
+target `Ok` is returned only behind the call that writes the frame, whatever the handles of the local processes hold:
+`nodeOp` rightly does not take the link and monitor sets as an argument. -/
+theorem C07_node_ok_only_behind_the_one_write (op : NodeOp) :
+    ∃ common localArm draws,
+      Gen.C07_NODE_BOOK.lookup op.fn = some (common ++ localArm ++ ["lookup"] ++ draws ++
+        ["lock", "call:" ++ op.method, "fail:propagate", "ok", "else", "not_connected"]) ∧
+      common.all (fun s => s ∈ ["reg:get", "book:add_link", "book:remove_link", "noproc", "draw:ref"]) = true ∧
+      (localArm = [] ∨ ∃ body, localArm = ["local?"] ++ body ++ ["ok", "else"] ∧
+        body.all (fun s => s ∈ ["reg:get", "book:add_link", "book:remove_link", "book:add_monitor", "book:remove_monitor",
+          "noproc", "notify"]) = true) ∧
+      draws.all (fun s => s ∈ ["draw:pid", "draw:unlink_id+1"]) = true := by
+  cases op
+  · exact ⟨[], [], ["draw:pid"], by simp only [NodeOp.fn, NodeOp.method]; decide, by decide, Or.inl rfl, by decide⟩
+  · exact ⟨["reg:get", "book:add_link", "noproc"], ["local?", "reg:get", "book:add_link", "noproc", "ok", "else"], [],
+      by simp only [NodeOp.fn, NodeOp.method]; decide, by decide,
+      Or.inr ⟨["reg:get", "book:add_link", "noproc"], by decide, by decide⟩, by decide⟩
+  · exact ⟨["reg:get", "book:remove_link"], ["local?", "reg:get", "book:remove_link", "ok", "else"], ["draw:unlink_id+1"],
+      by simp only [NodeOp.fn, NodeOp.method]; decide, by decide,
+      Or.inr ⟨["reg:get", "book:remove_link"], by decide, by decide⟩, by decide⟩
+  · exact ⟨["draw:ref"], ["local?", "reg:get", "book:add_monitor", "reg:get", "notify", "ok", "else"], [],
+      by simp only [NodeOp.fn, NodeOp.method]; decide, by decide,
+      Or.inr ⟨["reg:get", "book:add_monitor", "reg:get", "notify"], by decide, by decide⟩, by decide⟩
+  · exact ⟨[], ["local?", "reg:get", "book:remove_monitor", "ok", "else"], [],
+      by simp only [NodeOp.fn, NodeOp.method]; decide, by decide,
+      Or.inr ⟨["reg:get", "book:remove_monitor"], by decide, by decide⟩, by decide⟩
+
+example : Gen.C07_NODE_BOOK.lookup (NodeOp.link pA pB).fn ≠ none ∧
+    (Gen.C07_NODE_BOOK.lookup (NodeOp.link pA pB).fn).any (fun l => l.count "ok" == 2 && !l.contains "return") = true := by
   decide
 
 end Edp.Props.C07
